@@ -31,8 +31,9 @@ FUNCTIONS = ["scrut::testcase::TestCase::validate", "scrut::diff::DiffTool::diff
 
 BOUNDS = {
     # (n_exp, m_lines) pairs explored; every quantifier vector in {1,?,*,+}^n, both newline settings
-    "quick": [(n, m) for n in range(0, 4) for m in range(0, 5)],
-    "thorough": [(n, m) for n in range(0, 5) for m in range(0, 7)] + [(5, m) for m in range(0, 6)],
+    "quick": [(n, m) for n in range(0, 5) for m in range(0, 6)],
+    "thorough": [(n, m) for n in range(0, 5) for m in range(0, 8)] + [(5, m) for m in range(0, 7)]
+                + [(6, m) for m in range(0, 5)],
 }
 
 
